@@ -293,7 +293,7 @@ def plan(tier, seed):
         n0, n1 = d(1583, 1, 1), d(9999, 12, 31) + 1
         for s in range(n0, n1, 20000):
             shards.append({"kind": "dates", "n0": s, "n1": min(n1, s + 20000), "parse": False})
-    years = [1583, 1600, 1700, 1800, 2100, 2400, 9999] + list(range(1896, 1906)) + list(range(1992, 2045))
+    years = [1, 4, 999, 1000, 1583, 1600, 1700, 1800, 2100, 2400, 9999] + list(range(1896, 1906)) + list(range(1992, 2045))
     years += [1583 + (seed * 97 + i * 411) % 8400 for i in range(3)]
     for y in sorted(set(years)):
         for q in range(4):
@@ -316,7 +316,7 @@ def evidence(m, tier, seed):
         "evaluations": c["evaluations"], "states": c["states"], "transitions": c["transitions"],
         "traces_validated_against_impl": c["transitions"],
         "distinct_nontrivial": c["nontrivial"],
-        "rule": "state = value rendered into strings: every day of 73 years (3 rotated by VERIF_SEED; thorough: every "
+        "rule": "state = value rendered into strings: every day of 77 years (incl. 1, 4, 999, 1000) (3 rotated by VERIF_SEED; thorough: every "
                 "date 1583..9999 at function level) x {calendar, ordinal, week} x {basic, extended} (+ week-without-day, "
                 "YYYY-MM); 18 times x 45 fraction/separator shapes x {none, Z, +05:30, -0330} x {T, space} x "
                 "{extended, basic} on 4 dates; all 2 879 minute offsets x {+hh:mm, +hhmm, +hh}; time-only forms; 51 "
